@@ -59,7 +59,10 @@ META = {
                    'allSubCaches* unrolled over the factories in dict order, allIDs(cls) as written), SQLObject.delete, '
                    'connection.expireAll (C04_translated_connection_expireAll_eq_model), and the CacheSet part of C07\'s assumed interface '
                    '(C04_translated_cacheSet_allIDs_is_inAllIDs / _tryGetByName_is_connTryGet: AllIDsSpec and Conn.tryGet of '
-                   'Model/Tx.lean hold of the translated methods); sqlmeta.expireAll is translated, no theorem.'),
+                   'Model/Tx.lean hold of the translated methods); connection.expireAll = the model\'s expireAll step itself '
+                   '(C04_translated_connection_expireAll_eq_model_step, via C04_expire_order_irrelevant), sqlmeta.expireAll '
+                   '(C04_translated_meta_expireAll_eq_model), and the expire-then-get finding restated on the translated source '
+                   '(C04_translated_expire_then_get_full_FALSE).'),
     'level_note': ('Trusted: Lean kernel; the hand-written model of cache.py/main.py, tied to the code by the op-history '
                    'correspondence (sampling); CPython reference counting / weakref / pickle / SQLite are modelled, not verified.'),
     'rule': ('case = (doCache, cullFrequency, cullFraction, op history); guarded stream (no detaching expire, no unpickle of a deleted row; plus a stream with falsy row objects: '
